@@ -76,7 +76,16 @@ def _second_opinion(prop: str, tier: str, mod, ctx: Ctx) -> None:
             cleared += 1
             o.detail = "[holds on the inlined view: private helpers spliced into their callers] " + o.detail
     if ctx.analysis_errors and not ctx_b.analysis_errors:
-        ctx.note("analysis_errors_cleared_by_inlined_view", list(ctx.analysis_errors))
+        # a rule group could not find its anchors in the source as written but did in the equivalent inlined program:
+        # its obligations (discharged or not) are taken from there, so that nothing passes by not being looked at
+        have = {o.key() for o in ctx.obligations}
+        adopted = 0
+        for o in ctx_b.obligations:
+            if o.key() not in have:
+                o.detail = "[decided on the inlined view: private helpers spliced into their callers] " + o.detail
+                ctx.obligations.append(o)
+                adopted += 1
+        ctx.note("analysis_errors_cleared_by_inlined_view", {"errors": list(ctx.analysis_errors), "obligations_adopted": adopted})
         ctx.analysis_errors = []
     ctx.note("inlined_view", {"helpers_inlined": stats.get("inlined_calls"), "functions_changed": stats.get("functions_changed"),
                               "obligations": len(ctx_b.obligations), "failing_in_source_view": len(failing), "cleared": cleared})
@@ -89,7 +98,15 @@ def run_property(prop: str, tier: str, replay: dict | None = None) -> int:
         ctx = Ctx(prop, tier, repo, prog)
         mod = importlib.import_module(f"sa.props.{prop.lower()}")
         mod.run(ctx)
-        _second_opinion(prop, tier, mod, ctx)
+        if os.environ.get("VERIF_VIEW") == "inlined":
+            # debugging aid: the verdict of the inlined view alone (never used by the registered commands)
+            from .inline import build_inlined_repo
+
+            repo_b, _ = build_inlined_repo(keep=set(getattr(repo, "requested", set())) | _named_in_rules(repo))
+            ctx = Ctx(prop, tier, repo_b, Program(repo_b))
+            mod.run(ctx)
+        else:
+            _second_opinion(prop, tier, mod, ctx)
         if tier == "thorough" and replay is None and not os.environ.get("VERIF_NO_EVIDENCE"):
             # checker self-test on scratch copies of the *current* tree: every confirmed rule instance must fire on its
             # mutant and stay silent on behaviour-preserving refactors. Informational: it never changes the verdict.
